@@ -9,21 +9,30 @@
 (*   sizes      = event -> size in bytes; limit = [num, size]                                    *)
 EXTENDS Integers, Sequences, FiniteSets
 
-VARIABLES parents, sizes, limit, connected, copies, failed
-bvars == <<parents, sizes, limit, connected, copies, failed>>
+VARIABLES parents, sizes, limit, connected, copies, failed, peak, extc
+bvars == <<parents, sizes, limit, connected, copies, failed, peak, extc>>
 
 ToSet(s) == {s[i] : i \in 1..Len(s)}
+Max2(a, b) == IF a > b THEN a ELSE b
+\* the largest parents-closed subset of S: what an ideal buffer has connected once exactly the events S arrived
+RECURSIVE Conn(_)
+Conn(S) == LET S2 == {e \in S : ToSet(parents[e]) \subseteq S} IN IF S2 = S THEN S ELSE Conn(S2)
+RECURSIVE SumOver(_)
+SumOver(S) == IF S = {} THEN 0 ELSE LET e == CHOOSE x \in S : TRUE IN sizes[e] + SumOver(S \ {e})
 
-BInit(p, sz, lim) == /\ parents = p /\ sizes = sz /\ limit = lim /\ connected = {} /\ copies = <<>> /\ failed = FALSE
+BInit(p, sz, lim) == /\ parents = p /\ sizes = sz /\ limit = lim /\ connected = {} /\ copies = <<>> /\ failed = FALSE /\ peak = [num |-> 0, size |-> 0] /\ extc = {}
 \* a new buffer is created for a new scenario
-BReset(p, sz, lim) == /\ parents' = p /\ sizes' = sz /\ limit' = lim /\ connected' = {} /\ copies' = <<>> /\ failed' = FALSE
+BReset(p, sz, lim) == /\ parents' = p /\ sizes' = sz /\ limit' = lim /\ connected' = {} /\ copies' = <<>> /\ failed' = FALSE /\ peak' = [num |-> 0, size |-> 0] /\ extc' = {}
 
 \* PushEvent(copy c of event e) is called
 Push(c, e) ==
   /\ c \notin DOMAIN copies
   /\ e \in DOMAIN parents
   /\ copies' = [x \in DOMAIN copies \cup {c} |-> IF x = c THEN [ev |-> e, proc |-> 0, rel |-> FALSE, chk |-> 0] ELSE copies[x]]
-  /\ UNCHANGED <<parents, sizes, limit, connected, failed>>
+  /\ LET P == {copies[x].ev : x \in DOMAIN copies} \cup {e} \cup extc     \* events pushed (or connected from outside) so far
+         W == (P \ Conn(P)) \ extc                                          \* those that must wait in an ideal buffer
+     IN peak' = [num |-> Max2(peak.num, Cardinality(W)), size |-> Max2(peak.size, SumOver(W))]
+  /\ UNCHANGED <<parents, sizes, limit, connected, failed, extc>>
 
 \* the Check callback is invoked for copy c (ok = its answer)
 Check(c, e, ok) ==
@@ -31,7 +40,7 @@ Check(c, e, ok) ==
   /\ ToSet(parents[e]) \subseteq connected                 \* the check sees the connected parents
   /\ copies' = [copies EXCEPT ![c].chk = @ + 1]              \* (C14 does not constrain how often a copy is checked)
   /\ failed' = (failed \/ ~ok)
-  /\ UNCHANGED <<parents, sizes, limit, connected>>
+  /\ UNCHANGED <<parents, sizes, limit, connected, peak, extc>>
 
 \* the Process callback is invoked for copy c (ok = it returned nil)
 Process(c, e, ok) ==
@@ -42,14 +51,21 @@ Process(c, e, ok) ==
   /\ copies' = [copies EXCEPT ![c].proc = 1]
   /\ connected' = IF ok THEN connected \cup {e} ELSE connected
   /\ failed' = (failed \/ ~ok)
-  /\ UNCHANGED <<parents, sizes, limit>>
+  /\ UNCHANGED <<parents, sizes, limit, peak, extc>>
 
 \* the Released callback is invoked for copy c
 Released(c, e) ==
   /\ c \in DOMAIN copies /\ copies[c].ev = e
   /\ ~copies[c].rel                                          \* exactly once
   /\ copies' = [copies EXCEPT ![c].rel = TRUE]
-  /\ UNCHANGED <<parents, sizes, limit, connected, failed>>
+  /\ UNCHANGED <<parents, sizes, limit, connected, failed, peak, extc>>
+
+\* an event gets connected by another path than this buffer (the application received it elsewhere): Get/Exists answer for it from now on
+ExtConnect(e) ==
+  /\ e \in DOMAIN parents /\ e \notin connected
+  /\ ToSet(parents[e]) \subseteq connected
+  /\ connected' = connected \cup {e} /\ extc' = extc \cup {e}
+  /\ UNCHANGED <<parents, sizes, limit, copies, failed, peak>>
 
 \* PushEvent returns; (num, size) = Total() read right after (sequential scenarios only)
 PushReturn(c, complete, num, size) ==
@@ -66,7 +82,10 @@ Cleared ==
 \* completeness: with sufficient limits and no failing callback every event of the parents-closed set was processed
 RECURSIVE SumSeq(_)
 SumSeq(s) == IF s = <<>> THEN 0 ELSE Head(s) + SumSeq(Tail(s))
-Sufficient == limit.num >= Len(parents) /\ limit.size >= SumSeq(sizes)
-Complete ==
-  (Sufficient /\ ~failed /\ {copies[c].ev : c \in DOMAIN copies} = DOMAIN parents) => connected = DOMAIN parents
+\* the limits suffice for this arrival order: an ideal buffer never has to hold more than the limits
+Sufficient(exact) == IF exact THEN limit.num >= peak.num /\ limit.size >= peak.size
+                     ELSE limit.num >= Len(parents) /\ limit.size >= SumSeq(sizes)   \* concurrent pushes: the arrival order is not known exactly
+Complete(exact) ==
+  \* (not claimed when events were connected from outside: the statement speaks about events arriving through the buffer)
+  (Sufficient(exact) /\ ~failed /\ extc = {} /\ {copies[c].ev : c \in DOMAIN copies} = DOMAIN parents) => connected = DOMAIN parents
 =============================================================================
